@@ -96,7 +96,9 @@ fn generate(seed: u64, tier: Tier) -> Scenario {
             ],
             schedule: Schedule::Random(0),
         });
-        sc.params = json!({"kind": "race", "enumerate": true, "random": if tier.thorough() { 150 } else { 40 }});
+        // every other race happens within one simulated second (the two heads then carry the
+        // same start time and are byte-identical)
+        sc.params = json!({"kind": "race", "enumerate": true, "random": if tier.thorough() { 150 } else { 40 }, "clock_div": if seed % 2 == 0 { 1_000_000 } else { 1 }});
         sc
     }
 }
@@ -226,6 +228,11 @@ fn execute_found(sc: &Scenario, acc: &mut Acc) -> Result<Vec<Found>, String> {
     let prop = "C07";
     let kind = sc.params.get("kind").and_then(|v| v.as_str()).unwrap_or("history").to_string();
     let mut w = World::new(sc.env.clone(), sc.root_meta);
+    let clock_div = sc.params.get("clock_div").and_then(|v| v.as_i64()).unwrap_or(1);
+    w.set_clock_div(clock_div);
+    if clock_div > 1 {
+        acc.hit("race_within_one_second");
+    }
     acc.runs += 1;
     *acc.backends.entry(if sc.env.local_backend { "local_disk" } else { "mem" }.into()).or_default() += 1;
     let mut founds_v: Vec<Found> = Vec::new();
@@ -375,7 +382,7 @@ fn execute_found(sc: &Scenario, acc: &mut Acc) -> Result<Vec<Found>, String> {
                 actors: actors.clone(),
                 schedule: Schedule::Explicit(rr.trace.clone()),
             };
-            fsc.params = json!({"kind": "race", "enumerate": false});
+            fsc.params = json!({"kind": "race", "enumerate": false, "clock_div": clock_div});
             let mut seen = BTreeSet::new();
             out.retain(|v| seen.insert(v.signature()));
             out.retain(|v| seen_sigs.insert(v.signature()));
